@@ -184,6 +184,9 @@ class Dynamics:
             Calculated dynamics results in pd.DataFrame
         """
         logger.info(f"Calculate {self.cal_type} dynamics in linear output")
+        if condition is not None:
+            # a 0/1 selection of integer type selects like a bool mask (as in sq4), it does not index particles 0 and 1
+            condition = np.asarray(condition).astype(bool)
         # define particle type specific cutoffs
         self.q_const = qconst / self.diameters  # 2PI/sigma
         q_const = self.q_const.copy()
@@ -462,6 +465,9 @@ class LogDynamics:
             Calculated dynamics results in pd.DataFrame
         """
         logger.info(f"Calculate {self.cal_type} dynamics in log-scale output")
+        if condition is not None:
+            # a 0/1 selection of integer type selects like a bool mask (as in sq4), it does not index particles 0 and 1
+            condition = np.asarray(condition).astype(bool)
         # define particle type specific cutoffs
         self.q_const = qconst / self.diameters  # 2PI/sigma
         q_const = self.q_const.copy()
